@@ -422,7 +422,14 @@ func (w *Writer) WriteArray(l int) {
 func (w *Writer) WriteError(err string) {
 	w.err = true
 	w.writeByte(ErrType)
-	w.writeBytes(strings.String2Bytes(err)...)
+	for i := 0; i < len(err); i++ {
+		// an error is a single line: client-supplied text must not break the framing
+		if err[i] == '\r' || err[i] == '\n' {
+			w.writeByte(' ')
+			continue
+		}
+		w.writeByte(err[i])
+	}
 	w.writeBytes('\r', '\n')
 }
 
